@@ -146,4 +146,48 @@ Proof.
   assert (0 <= eps * (- (Rr * vn))) by (apply Rmult_le_pos; lra).
   nra.
 Qed.
+
+(* ---- general coefficient of restitution (no minimum_collision_velocity clamp: mcv = 0 and the normal component of the
+   relative velocity is not positive, which the spherical-coordinate identities make equivalent to "approaching") *)
+Lemma dv_unclamped : mcv = 0 -> vn <= 0 -> 0 <= 1 + eps -> dv = - ((1 + eps) * vn).
+Proof.
+  intros Hc Hv He. unfold dv, hs_dvx2. rewrite Hc. cbn [nadd nsub nmul ndiv nneg nsqrt none nltb RNum]. unfold Rltb.
+  assert (Hd : 0 <= - ((1 + eps) * vn)) by (assert (0 <= (1 + eps) * (- vn)) by (apply Rmult_le_pos; lra); lra).
+  repeat match goal with |- context [Rlt_dec ?a ?b] => destruct (Rlt_dec a b) end; try reflexivity; exfalso;
+    match goal with H : - ((1 + eps) * vn) < ?m |- _ => assert (m = 0) by ring; lra end.
+Qed.
+
+(* Newton's law of restitution: the normal component of the relative velocity is reversed and scaled by eps *)
+Theorem hs_restitution :
+  mcv = 0 -> vn <= 0 -> 0 <= 1 + eps -> ct * ct + st * st = 1 -> cp * cp + sp * sp = 1 -> pm p1 + pm p2 <> 0 ->
+  cp * (pvx q1 + gvx g - pvx q2) + sp * (ct * (pvy q1 + gvy g - pvy q2) + st * (pvz q1 + gvz g - pvz q2)) = - eps * vn.
+Proof.
+  intros Hc Hv He H1 H2 Hm.
+  destruct hs_shape as (_ & _ & X1 & Y1 & Z1 & X2 & Y2 & Z2 & _).
+  pose proof (n_unit H1 H2) as Hn. pose proof (dv_unclamped Hc Hv He) as Hd.
+  assert (HAB : A + B = 1) by (unfold A, B; field; exact Hm).
+  assert (E : cp * (pvx q1 + gvx g - pvx q2) + sp * (ct * (pvy q1 + gvy g - pvy q2) + st * (pvz q1 + gvz g - pvz q2))
+              = vn + dv * (A + B) * (cp * cp + (ct * sp) * (ct * sp) + (st * sp) * (st * sp))).
+  { rewrite X1, Y1, Z1, X2, Y2, Z2. unfold vn, vx21, vy21, vz21. ring. }
+  rewrite E, HAB, Hn, Hd. ring.
+Qed.
+
+(* kinetic energy: loses exactly (1 - eps^2) of the energy of the normal relative motion (reduced mass mu) *)
+Theorem hs_energy :
+  mcv = 0 -> vn <= 0 -> 0 <= 1 + eps -> ct * ct + st * st = 1 -> cp * cp + sp * sp = 1 ->
+  gvx g = 0 -> gvy g = 0 -> gvz g = 0 -> pm p1 + pm p2 <> 0 ->
+  ke q1 q2 = ke p1 p2 - pm p1 * pm p2 / (pm p1 + pm p2) * (1 - eps * eps) * (vn * vn) / 2.
+Proof.
+  intros Hc Hv He H1 H2 G1 G2 G3 Hm.
+  destruct hs_shape as (_ & _ & X1 & Y1 & Z1 & X2 & Y2 & Z2 & M1 & M2 & _).
+  pose proof (n_unit H1 H2) as Hn. pose proof (dv_unclamped Hc Hv He) as Hd.
+  assert (Hke : ke q1 q2 = ke p1 p2 + pm p1 * pm p2 / (pm p1 + pm p2) * dv *
+            (2 * vn + dv * (cp * cp + (ct * sp) * (ct * sp) + (st * sp) * (st * sp))) / 2).
+  { unfold ke. rewrite X1, Y1, Z1, X2, Y2, Z2, M1, M2. unfold A, B, vn, vx21, vy21, vz21. rewrite G1, G2, G3. field. exact Hm. }
+  rewrite Hke, Hn, Hd. field. exact Hm.
+Qed.
 End HS.
+
+(* normal component (along the rotated x axis) of the relative velocity of p1 (with the ghost-box velocity) w.r.t. p2 *)
+Definition hs_vn (st ct sp cp : R) (g : vec6 R) (p1 p2 : particle R) : R :=
+  cp * (pvx p1 + gvx g - pvx p2) + sp * (ct * (pvy p1 + gvy g - pvy p2) + st * (pvz p1 + gvz g - pvz p2)).
